@@ -648,6 +648,17 @@ func (f *fsm) openSent() (fsmState, error) {
 					f.keepAliveInterval = f.holdTime / 3
 					f.keepAliveTimer = time.NewTimer(f.keepAliveInterval)
 					f.drainAndResetHoldTimer()
+				} else {
+					// https://tools.ietf.org/html/rfc4271#section-4.2
+					// A hold time of zero disables the hold and keepalive
+					// timers: stop the large hold timer set on entering
+					// OpenSent, and create the keepalive timer stopped so the
+					// states that follow can select on it.
+					if !f.holdTimer.Stop() {
+						<-f.holdTimer.C
+					}
+					f.keepAliveTimer = time.NewTimer(longHoldTime)
+					f.keepAliveTimer.Stop()
 				}
 
 				return openConfirmState, nil
@@ -728,7 +739,9 @@ func (f *fsm) openConfirm() (fsmState, error) {
 							- restarts the HoldTimer and
 							- changes its state to Established.
 					*/
-					f.drainAndResetHoldTimer()
+					if f.holdTime != 0 {
+						f.drainAndResetHoldTimer()
+					}
 					return establishedState, nil
 				case *Notification:
 					return idleState, newNotificationError(m, false)
